@@ -143,7 +143,33 @@ func genRegistry(r *rand.Rand) (reg []string, def string) {
 			def = "application/json"
 		}
 	}
+	if r.Intn(4) == 0 {
+		def = spellDefault(r, def)
+	}
 	return reg, def
+}
+
+// spellDefault gives Runtime.DefaultMediaType a spelling that is not the bare lower-case registry key: parameters (with or
+// without optional white space), capital letters, or both.
+func spellDefault(r *rand.Rand, mt string) string {
+	for i := 0; i < 8; i++ {
+		if v := spell(r, mt, true); v != mt {
+			return v
+		}
+	}
+	return mt + "; charset=utf-8"
+}
+
+// absentForSpelledDefault: a default media type that is not spelled like a registry key only matters for a response without
+// Content-Type: half of the calls of such a case get one (a few an empty header value).
+func absentForSpelledDefault(r *rand.Rand, def string, tcp bool, c *Call) {
+	if _, spelled := defaultType(def); spelled == "" || r.Intn(2) != 0 {
+		return
+	}
+	c.HasCT, c.CT = false, ""
+	if !tcp && r.Intn(8) == 0 {
+		c.HasCT = true
+	}
 }
 
 func genCT(r *rand.Rand, reg []string, tcp bool) (bool, string) {
@@ -333,6 +359,7 @@ func genSeq(r *rand.Rand, tcp bool) *Case {
 	c := &Case{TCP: tcp, RtCtx: genRtCtx(r), Debug: r.Intn(6) == 0}
 	c.Registry, c.DefaultMT = genRegistry(r)
 	c.Calls = []Call{genCall(r, c.Registry, tcp, "")}
+	absentForSpelledDefault(r, c.DefaultMT, tcp, &c.Calls[0])
 	if r.Intn(10) == 0 {
 		c.BasePath = genBasePath(r)
 	}
